@@ -5,6 +5,9 @@ use read_fonts::{types::Tag, FontData, FontRead, FontRef};
 
 macro_rules! table {
     ($s:expr, $cx:expr, $font:expr, $file:expr, $tag:expr, $name:expr, $owned:ty, $read:ty) => {{
+        table!($s, $cx, $font, $file, $tag, $name, $owned, $read, |_, _| {})
+    }};
+    ($s:expr, $cx:expr, $font:expr, $file:expr, $tag:expr, $name:expr, $owned:ty, $read:ty, $norm:expr) => {{
         if let Some(data) = $font.table_data(Tag::new($tag)) {
             $s.count(&format!("corpus-table:{}", $name));
             let label = format!("corpus:{}:{}", $file, $name);
@@ -14,7 +17,7 @@ macro_rules! table {
                 Err(p) => $s.oracle(&format!("to-owned-no-panic:{}", $name), false, || label.clone(), || p),
                 Ok(Err(_)) => $s.count(&format!("corpus-unreadable:{}", $name)),
                 Ok(Ok(v)) => {
-                    rt!($s, $cx, $name, $owned, $read, &label, &v);
+                    rt!($s, $cx, $name, $owned, $read, &label, &v, $norm);
                 }
             }
         }
@@ -48,7 +51,7 @@ pub fn run(_cfg: &Config, s: &mut Session, cx: &mut Ctx) {
         table!(s, cx, font, file, b"OS/2", "Os2", w::os2::Os2, r::os2::Os2);
         table!(s, cx, font, file, b"post", "Post", w::post::Post, r::post::Post);
         table!(s, cx, font, file, b"name", "Name", w::name::Name, r::name::Name);
-        table!(s, cx, font, file, b"cmap", "Cmap", w::cmap::Cmap, r::cmap::Cmap);
+        table!(s, cx, font, file, b"cmap", "Cmap", w::cmap::Cmap, r::cmap::Cmap, crate::norm_cmap);
         table!(s, cx, font, file, b"avar", "Avar", w::avar::Avar, r::avar::Avar);
         table!(s, cx, font, file, b"fvar", "Fvar", w::fvar::Fvar, r::fvar::Fvar);
         table!(s, cx, font, file, b"STAT", "Stat", w::stat::Stat, r::stat::Stat);
